@@ -3,7 +3,7 @@ from __future__ import annotations
 from collections.abc import Callable
 from typing import Any
 
-from mypy.nodes import AssignmentStmt, ClassDef, Decorator, FuncDef, MypyFile, OverloadedFuncDef
+from mypy.nodes import AssignmentStmt, ClassDef, Decorator, FuncDef, IfStmt, MypyFile, OverloadedFuncDef, TryStmt
 
 from ._mypy_helpers import get_classdef_definitions, get_funcdef_definitions, get_mypyfile_definitions
 
@@ -58,7 +58,7 @@ class ASTWalker:
         # ast_visitor, some other way or don't need to parse them at all
         child_nodes = []
         if isinstance(node, MypyFile):
-            definitions = get_mypyfile_definitions(node)
+            definitions = _flatten_conditional_definitions(get_mypyfile_definitions(node))
             child_nodes = [
                 _def
                 for _def in definitions
@@ -125,3 +125,20 @@ class ASTWalker:
             enter_method, leave_method = methods
 
         return enter_method, leave_method
+
+
+def _flatten_conditional_definitions(statements: list) -> list:
+    """Declarations under a module-level "if" or "try" are declarations of the module, too (unreachable branches aside)."""
+    definitions = []
+    for statement in statements:
+        if isinstance(statement, IfStmt):
+            blocks = [*statement.body, *([statement.else_body] if statement.else_body else [])]
+        elif isinstance(statement, TryStmt):
+            blocks = [statement.body, *statement.handlers, *([statement.else_body] if statement.else_body else [])]
+        else:
+            definitions.append(statement)
+            continue
+        for block in blocks:
+            if not block.is_unreachable:
+                definitions += _flatten_conditional_definitions(block.body)
+    return definitions
